@@ -152,6 +152,8 @@ func checkC16(c *Ctx) {
 	checkModelsRescanned(c, "C16.R7.models-rescanned", pk)
 	checkRetypeClearsRef(c, "C16.R4.retype-clears-ref", pk)
 	checkCommentsRaw(c, "C16.R8.comments-raw", pk)
+	// a field skipped by the struct loops is a property encoding/json writes and the definition lacks
+	checkLoopTotality(c, "C16.R9.loop-totality", pk, "codescan", 40, codescanLoopExits)
 	checkSpecDocFirst(c, "C16.R8.spec-doc-first", pk)
 }
 
@@ -445,6 +447,28 @@ func checkJSONTags(c *Ctx, rule string, pk *packages.Package) {
 		})
 		c.Check(!byName, rule, "codescan.isFieldStringable › type names are not enumerated", c.posOf(pk, fd.Pos()), "every identifier passes the syntactic test",
 			"the ',string' option is granted by the spelling of the field's type (a list of predeclared names): fields of a defined scalar type (type MyInt int), byte or rune are described as numbers although encoding/json quotes them")
+		// … local or imported: `pkg.Type` is a type name as well (time.Duration, units.Millis)
+		passes := map[string]bool{}
+		ast.Inspect(fd.Body, func(n ast.Node) bool {
+			cc, ok := n.(*ast.CaseClause)
+			if !ok {
+				return true
+			}
+			yes := false
+			for _, st := range cc.Body {
+				if rs, ok := st.(*ast.ReturnStmt); ok && len(rs.Results) == 1 && goan.IsIdent(rs.Results[0], "true") {
+					yes = true
+				}
+			}
+			for _, e := range cc.List {
+				if yes {
+					passes[goan.ExprString(e)] = true
+				}
+			}
+			return true
+		})
+		c.Check(passes["*ast.Ident"] && passes["*ast.SelectorExpr"], rule, "codescan.isFieldStringable › local and imported type names pass", c.posOf(pk, fd.Pos()), "case *ast.Ident, *ast.SelectorExpr: return true",
+			fmt.Sprintf("the syntactic test lets through %v only: a ',string' field whose type is written pkg.Type (time.Duration, a defined integer of another package) keeps its number schema although encoding/json writes it as a quoted string", sortedKeys(passes)))
 	}
 	if fd := load.FuncDecl(pk, "schemaBuilder.buildFromStruct"); fd != nil {
 		// the flag is applied together with a predicate over the field's resolved type
